@@ -204,6 +204,8 @@ PLUGIN_TESTS = [
     ('from inline_snapshot import snapshot\nimport os  # last import\n\n\nclass W:\n    def __repr__(self):\n        return "<W>"\n\n    def __eq__(self, o):\n        return True if isinstance(o, W) else NotImplemented\n\n\ndef test_a():\n    assert [W(), 1] == snapshot([0])\n', "fix", True),
     ('"""module docstring"""\nfrom __future__ import annotations\nfrom inline_snapshot import snapshot, outsource\n\ndef test_a():\n    assert outsource(b"abc" * 9) == snapshot()\n', "create", False),
     ('# -*- coding: utf-8 -*-\n"""ü"""\nfrom inline_snapshot import snapshot, outsource\nx = 1; y = "é"\ndef test_a():\n    assert [outsource("text" * 9), y] == snapshot()\n', "create", False),
+    # the module uses the qualified names only (`import inline_snapshot`): an unrelated fix adds no import line
+    ('import inline_snapshot\nfrom inline_snapshot import snapshot\n\n\ndef never_called():\n    return inline_snapshot.external("0123456789ab*.txt"), inline_snapshot.HasRepr(int, "x")\n\n\ndef test_a():\n    assert 5 == snapshot(4)\n', "fix", False),
 ]
 
 
